@@ -3,7 +3,7 @@ import itertools, json
 from fractions import Fraction
 import numpy as np
 from harness import votelib as V
-from harness.common import pmap, lean_query, guard, fr, safe_judge, persist, persist_rule
+from harness.common import pmap, lean_query, guard, fr, safe_judge, persist, persist_rule, pmap_singles
 from harness.c01 import chunks
 
 LEVEL = "proof"
@@ -99,8 +99,8 @@ def run_items(R, items):
         if "results" in res:
             flat += res["results"]
         else:
-            singles = pmap("c05", "impl_batch", [{"items": [it]} for it in case["items"]], deadline=10.0)
-            flat += [s["results"][0] if "results" in s else {"hang": True} for s in singles]
+            singles = pmap_singles("c05", "impl_batch", [{"items": [it]} for it in case["items"]], deadline=10.0, R=R)
+            flat += [s["results"][0] if "results" in s else ({"skipped": True} if "skipped" in s else {"hang": True}) for s in singles]
     ans = lean_query([lean_line(it) for it in items])
     for it, r, a in zip(items, flat, ans):
         judge(R, it, r, a)
